@@ -88,7 +88,7 @@ func (v *Vue) evaluate(ctx VueContext, nodes []*html.Node, depth int) ([]*html.N
 
 			// Handle slot elements
 			if tag == "slot" {
-				slotResult, err := v.evalSlot(ctx, node, ctx.SlotScope)
+				slotResult, err := v.evalSlot(ctx, node, ctx.SlotScope, depth)
 				if err != nil {
 					return nil, err
 				}
